@@ -65,6 +65,38 @@ def register(reg):
         mutants=[('masks.append(mask1 | mask2)', 'masks.append(mask1 & mask2)'),
                  ('masks.append(mask1 | mask2)', 'masks.append(mask1)')],
     ))
+    # bounding boxes: row k's box is made from row k's slices *of this catalog* (whatever order
+    # its rows are in); xmax / ymax are inclusive
+    reg.record('SourceCatalog@slices', {'_slices_iter': ('seq', 'slice2')})
+    sk = 'self._slices_iter[k]'
+    okslc = (f'forall(lambda k: {sk}[0].start < {sk}[0].stop and {sk}[1].start < {sk}[1].stop, '
+             '(0, len(self._slices_iter)))')
+    reg.add(Contract(
+        target=f'{S}._bbox', props=['C07', 'C08'], kind='property',
+        params={'self': 'SourceCatalog@slices'}, requires=[okslc],
+        ensures=[('one-per-row', 'len(result) == len(self._slices_iter)'),
+                 ('box-of-the-rows-own-slices',
+                  f'forall(lambda k: result[k].ixmin == {sk}[1].start and result[k].ixmax == '
+                  f'{sk}[1].stop and result[k].iymin == {sk}[0].start and result[k].iymax == '
+                  f'{sk}[0].stop, (0, len(result)))')],
+        note='the @use_detcat / @as_scalar decorators are trusted wrappers (delegation to the '
+             'detection catalog, scalar unwrapping)',
+        mutants=[('ixmin=slc[1].start', 'ixmin=slc[0].start'),
+                 ('iymax=slc[0].stop', 'iymax=slc[0].stop - 1'),
+                 ('for slc in self._slices_iter', 'for slc in self._slices_iter[::-1]')],
+    ))
+    for nm, expr, mut in (('bbox_xmin', f'{sk}[1].start', ('slc[1].start', 'slc[0].start')),
+                          ('bbox_xmax', f'{sk}[1].stop - 1', ('slc[1].stop - 1', 'slc[1].stop')),
+                          ('bbox_ymin', f'{sk}[0].start', ('slc[0].start', 'slc[0].start + 1')),
+                          ('bbox_ymax', f'{sk}[0].stop - 1', ('slc[0].stop - 1', 'slc[1].stop - 1'))):
+        reg.add(Contract(
+            target=f'{S}.{nm}', props=['C07', 'C08'], kind='property',
+            params={'self': 'SourceCatalog@slices'},
+            ensures=[('one-per-row-from-its-own-slices',
+                      f'len(result) == len(self._slices_iter) and forall(lambda k: result[k] == '
+                      f'{expr}, (0, len(result)))')],
+            mutants=[mut],
+        ))
     reg.add(Contract(
         target=f'{S}._all_masked', props=['C07'], kind='property',
         params={'self': 'SourceCatalog'},
